@@ -3,7 +3,7 @@
 From Coq.Strings Require Import Byte String.
 From Coq Require Import List NArith Bool.
 Import ListNotations.
-From V Require Import lib.Bytes lib.Utf8 spec.JsLex model.JsEsc.
+From V Require Import lib.Bytes lib.Utf8 spec.JsLex spec.JsScript model.JsEsc model.JsTrack.
 Require Extraction.
 Require Import ExtrOcamlBasic.
 Open Scope N_scope.
@@ -125,6 +125,49 @@ Definition jstr_bits (want out : bytes) : bytes :=
   | [] => [x30; x30; x30]
   end.
 
+(* ---- script level: a template is sent as  segment, hole's value index, segment, ..., segment ---- *)
+Fixpoint dec_tpl (l : list bytes) : list sym :=
+  match l with
+  | [] => []
+  | [seg] => map SB seg
+  | seg :: idx :: rest => map SB seg ++ SH (match undec idx with Some n => N.to_nat n | None => O end) :: dec_tpl rest
+  end.
+Definition ser_tok (t : tok) : bytes :=
+  match t with
+  | TCode c => x43 :: c            (* C<text> *)
+  | TStr (Some v) => x53 :: v      (* S<value> *)
+  | TStr None => [x73]             (* s = literal whose body is ill-formed *)
+  | TCom c => x4b :: c             (* K<text> *)
+  | TStop w => [x58; w]            (* X<why> *)
+  end.
+Fixpoint ser_fevs (l : list fev) : bytes :=
+  match l with
+  | [] => []
+  | FHole true :: r => x31 :: ser_fevs r
+  | FHole false :: r => x30 :: ser_fevs r
+  | FSwallowed :: r => x78 :: ser_fevs r
+  | FEnd _ :: _ => [x45]
+  end.
+Fixpoint end_of (l : list fev) : bytes :=
+  match l with [] => [x2d] | FEnd n :: _ => dec (N.of_nat n) | _ :: r => end_of r end.
+(* args: number of values k, the k values, the implementation's rendering, then the template.
+   reply: verdict bits (same tokens, same script-end places); lexical positions of the holes by the specification;
+          the model tracker's verdicts on template ++ "</script>"; where the model says the contents end;
+          the model's rendering; is the template in the fragment of C03_script_structure_partial;
+          the specification's tokens of the template, "|", its tokens of the rendering *)
+Definition script_reply (a : list bytes) : list bytes :=
+  let k := match undec (arg 0 a) with Some n => N.to_nat n | None => O end in
+  let vals := firstn k (skipn 1 a) in
+  let out := nth (S k) a [] in
+  let tpl := dec_tpl (skipn (S (S k)) a) in
+  let tr := track (tpl ++ map SB end_tag) in
+  [ [if same_tokens vals tpl out then x31 else x30; if same_ends tpl out then x31 else x30];
+    map (fun b : bool => if b then x31 else x30) (positions (lex_script vals tpl));
+    ser_fevs tr; end_of tr;
+    render (flags tr) vals tpl;
+    b2 (fragment vals tpl) ]
+  ++ map ser_tok (toks_of (lex_script vals tpl)) ++ [[x7c]] ++ map ser_tok (toks_of (lex_script [] (bytes_syms out))).
+
 Definition rune_reply (rw : N * nat) : list bytes := [dec (fst rw); dec (N.of_nat (snd rw))].
 
 Definition dispatch (f : bytes) (a : list bytes) : list bytes :=
@@ -174,6 +217,7 @@ Definition dispatch (f : bytes) (a : list bytes) : list bytes :=
   else if is f "runes" then
     [flat_map (fun rw : N * nat => dec (fst rw) ++ [x2f] ++ dec (N.of_nat (snd rw)) ++ [x20]) (runes (arg 0 a))]
   else if is f "valid_utf8" then [b2 (valid_utf8 (arg 0 a))]
+  else if is f "script" then script_reply a
   else if is f "lex" then
     (* args: quote kind byte, text after the opening quote.  reply: kind letter, offset *)
     let q := if bytes_eqb (arg 0 a) [x27] then QSingle else if bytes_eqb (arg 0 a) [x22] then QDouble else QBacktick in
